@@ -76,7 +76,7 @@ var Funcs = map[string]FunctionCall{
 		return promql.Sample{
 			Point: promql.Point{
 				T: f.StepTime,
-				V: float64(f.Points[0].T) / 1000,
+				V: float64(f.StepTime) / 1000,
 			},
 		}
 	},
@@ -377,6 +377,17 @@ var Funcs = map[string]FunctionCall{
 			},
 		}
 	},
+}
+
+// SelectedTimestamp is timestamp() over a vector selector that already yields
+// the timestamps of the samples it selected.
+func SelectedTimestamp(f FunctionArgs) promql.Sample {
+	return promql.Sample{
+		Point: promql.Point{
+			T: f.StepTime,
+			V: f.Points[0].V,
+		},
+	}
 }
 
 func NewFunctionCall(f *parser.Function) (FunctionCall, error) {
